@@ -15,9 +15,19 @@ def gen_cases(rng, tier, scale):
     for n, count, cap in plan:
         for _ in range(count * scale):
             cases += gen_matrix(rng, maxchain, n, cap)
+    # Flask JSON / form / query / header Parameters inside a test request context (repeated query keys, value_type=list,
+    # headers in another spelling, JSON document null)
+    for _ in range((30 if tier == 'quick' else 500) * scale):
+        cases += gen_matrix(rng, maxchain, rng.randint(1, 3 if tier == 'quick' else 4), 6 if tier == 'quick' else 12, flask=True)
+    for _ in range((15 if tier == 'quick' else 0) * scale):
+        cases += gen_duplicates(rng, maxchain, 4, flask=True)
+    for _ in range((300 if tier == 'quick' else 6000) * scale):         # has_value() / load_value() of single source objects
+        cases.append(gen_probe(rng))
+    for _ in range((110 if tier == 'quick' else 1500) * scale):         # several Parameters (plain / external, with / without value) for ONE name
+        cases += gen_duplicates(rng, maxchain, 6 if tier == 'quick' else 10)
     if tier == 'thorough':
-        for _ in range(500 * scale):
-            cases += gen_matrix(rng, maxchain, rng.randint(1, 4), 12, flask=True)
+        for _ in range(300 * scale):
+            cases += gen_duplicates(rng, maxchain, 8, flask=True)
     for _ in range((90 if tier == 'quick' else 2500) * scale):          # shared Parameter objects, calls in sequence
         cases.append(gen_shared(rng, maxchain))
     for _ in range((400 if tier == 'quick' else 6000) * scale):
@@ -29,10 +39,15 @@ def gen_cases(rng, tier, scale):
 
 
 def run(tier, seed, replay=None):
-    return run_checks('C13', tier, seed, replay, gen_cases, PROPS, group_check=True,
+    return run_checks('C13', tier, seed, replay, gen_cases, PROPS, group_check=True, tr_units=['Validate', 'ValidateSources'],
                       rule='per configuration (signature of 1-4 named parameters +-self +-defaults +-keyword-only, Parameters in a '
                            'random declaration order, strict, external presence pattern) and named assignment: all positional/keyword '
                            'splits x all keyword permutations (all for <=3 parameters, sampled for 4) x 3 return_as modes, plus all '
                            '(<=6) declaration orders; sequences of 3-6 calls of 2-3 functions decorated with the same Parameter objects (different signature '
-                           'defaults / modes / declaration orders, external values changing between calls), every call judged on its own; thorough adds Flask JSON/form/query/header parameters inside a test request '
-                           'context; distinct = whole case; non-trivial = at least one Parameter and one supplied or external value')
+                           'defaults / modes / declaration orders, external values changing between calls), every call judged on its own; '
+                           'declarations with SEVERAL Parameters for one name (plain and external, sources with / without value, the name passed / omitted) '
+                           'x all call styles x 3 modes, judged against every resolution of the duplicate (a passed value must come out of the chain of '
+                           'one of the Parameters of its name, never from a source); Flask JSON/form/query/header parameters inside a test request '
+                           'context (repeated query keys, value_type=list, header spellings, JSON null; more in thorough); single source objects '
+                           '(environment variable, Flask JSON/form/query/header Parameter, deserializer): has_value() / load_value() called '
+                           'directly in generated worlds, against the model of the sources and their specification; distinct = whole case; non-trivial = at least one Parameter and one supplied or external value')
